@@ -63,7 +63,31 @@ def _odd_level(n):
     return False
 
 
+def check_edge(case):
+    """weight and sizes at the compact-size edges: one witness item of `item` bytes, a witness stack of `items` items, a
+    script of `script` bytes, `nin` inputs"""
+    nin = case.get('nin', 1)
+    wit = [[b'\x07' * case['item']] + [b''] * (case['items'] - 1)] + [[b'\x01']] * (nin - 1) if case['items'] else None
+    t = {'version': 2, 'vin': [(H.dsha(b'edge%d' % i), i, b'\x51' * (case.get('script', 0) if i == 0 else 0), 0xfffffffe) for i in range(nin)],
+         'vout': [(1, b'\x51')], 'wit': wit, 'locktime': 0}
+    s = len(W.enc_tx(t, False)); f = len(W.enc_tx(t, True))
+    for mutable in (False, True):
+        o = libx.mk_tx(t, mutable)
+        if libx.call('calc_weight', o.calc_weight)[1] != 3 * s + f:
+            raise Violation('weight/tx-edge', 'calc_weight()=%d expected %d (witness item of %d bytes, stack of %d items, script of %d bytes, %d inputs)' % (
+                o.calc_weight(), 3 * s + f, case['item'], case['items'], case.get('script', 0), nin))
+        if libx.call('serialize', o.serialize)[1] != W.enc_tx(t, True):
+            raise Violation('weight/tx-edge-encoding', 'serialize() differs from the BIP144 encoding at a compact-size edge')
+    b = libx.call('construct', CBlock, vtx=[libx.mk_tx(t, False)])[1]
+    hdr = 81
+    if libx.call('GetWeight', b.GetWeight)[1] != 3 * (hdr + s) + hdr + f:
+        raise Violation('weight/block-edge', 'GetWeight()=%d expected %d at a compact-size edge' % (b.GetWeight(), 3 * (hdr + s) + hdr + f))
+    return {'nt': True, 'evals': 5, 'cls': ['edge']}
+
+
 def check_case(case):
+    if case.get('kind') == 'edge':
+        return check_edge(case)
     txs = _txs(case)
     n = len(txs)
     root = M.merkle_root([W.txid(t) for t in txs])
@@ -91,6 +115,13 @@ def check_case(case):
     # the static tree builders, given the caller's own objects
     if tuple(libx.call('build_merkle_tree_from_txs', CBlock.build_merkle_tree_from_txs, vtx)[1])[-1] != root:
         raise Violation('root/static-builder', 'n=%d: build_merkle_tree_from_txs(...)[-1] != reference' % n)
+    # ... and given the caller's own LIST of txids, twice: the list is the caller's (unchanged afterwards), the answer the same
+    ids = [W.txid(t) for t in txs]
+    for again in (0, 1):
+        if tuple(libx.call('build_merkle_tree_from_txids', CBlock.build_merkle_tree_from_txids, ids)[1])[-1] != root:
+            raise Violation('root/txids-builder' + ('-again' if again else ''), 'n=%d: build_merkle_tree_from_txids(list)[-1] != reference (call %d with the same list)' % (n, again + 1))
+        if ids != [W.txid(t) for t in txs]:
+            raise Violation('root/txids-builder-changed-argument', 'n=%d: build_merkle_tree_from_txids changed the list it was given' % n)
     if any(W.has_witness(t) for t in txs):
         if tuple(libx.call('build_witness_merkle_tree_from_txs', CBlock.build_witness_merkle_tree_from_txs, vtx)[1])[-1] != M.witness_root([W.wtxid(t) for t in txs]):
             raise Violation('wroot/static-builder', 'n=%d: build_witness_merkle_tree_from_txs(...)[-1] != reference' % n)
@@ -193,8 +224,22 @@ def t_every_n(ctx):
         ctx.exhaustive.append('every transaction count n in %d..%d; 127..129 and 252..257 (CompactSize boundary of the count)' % (ns[0], 70 if ctx.quick else 300))
 
 
+def t_edges(ctx):
+    """compact-size edges of everything weight counts: witness item length, witness stack depth, script length, input count"""
+    E = (0xfc, 0xfd, 0xfe, 0xffff, 0x10000)
+    cases = [{'kind': 'edge', 'item': L, 'items': 1} for L in E + (0, 1, 0xfffe, 0x10001)]
+    cases += [{'kind': 'edge', 'item': 1, 'items': k} for k in E]
+    cases += [{'kind': 'edge', 'item': 0, 'items': 0, 'script': L} for L in E]
+    cases += [{'kind': 'edge', 'item': 2, 'items': 1, 'nin': k} for k in (0xfc, 0xfd, 0xfe)]
+    for i, c in enumerate(cases):
+        if i % ctx.nshards == ctx.shard:
+            ctx.run(c)
+    if ctx.shard == 0:
+        ctx.exhaustive.append('weight at compact-size edges 0xfc/0xfd/0xfe/0xffff/0x10000 of witness item length, stack depth, script length; 252-254 inputs')
+
+
 def t_random(ctx):
     ctx.hyp(st.integers(1, 140).flatmap(s_variant), ctx.n(500, 6000))
 
 
-TASKS = [('every_n', (t_every_n, 10)), ('random', (t_random, 6))]
+TASKS = [('every_n', (t_every_n, 10)), ('random', (t_random, 6)), ('edges', (t_edges, 4))]
